@@ -521,14 +521,41 @@ fn adt_drive(_s: &Seed, data: &[u8], p: &mut Probe) {
                 let _ = r.has_water();
             }
         });
+        p.seed_valid = Some(p.all_ok);
+        // what a caller does with a parsed tile: decode the alpha maps of every chunk (RLE / 4-bit / 8-bit readers over the
+        // file's own MCAL bytes, at the offsets the layer table gives and at a few others), check the chunks, and serialise it again
+        if let ParsedAdt::Root(r) = a {
+            p.call_plain("McalChunk::get_layer_alpha + AlphaMap::decompress", || {
+                use wow_adt::chunks::mcnk::mcal::AlphaFormat;
+                let mut n = 0usize;
+                for ch in r.mcnk_chunks.iter().take(256) {
+                    let _ = ch.validate_consistency();
+                    if let Some(al) = &ch.alpha {
+                        let len = al.data.len();
+                        for (off, size) in [(0usize, len), (0, 2048), (0, 4096), (len / 2, len - len / 2), (len, 0), (len.saturating_sub(1), 1), (1, len)] {
+                            for fmt in [AlphaFormat::Compressed, AlphaFormat::Uncompressed2048, AlphaFormat::Uncompressed4096] {
+                                if let Ok(m) = al.get_layer_alpha(off, size, fmt) {
+                                    n += m.decompress().map(|d| d.len()).unwrap_or(0);
+                                    let _ = m.get_alpha(63, 63);
+                                }
+                            }
+                        }
+                    }
+                }
+                std::hint::black_box(n)
+            });
+            p.call("BuiltAdt::from_root_adt + to_bytes", || wow_adt::builder::BuiltAdt::from_root_adt(*r, None).to_bytes());
+        }
     }
+    p.call("parse_adt_with_metadata", || wow_adt::api::parse_adt_with_metadata(&mut Cursor::new(data)));
+    p.call("discover_chunks", || wow_adt::chunk_discovery::discover_chunks(&mut Cursor::new(data)));
 }
 
 pub fn formats() -> Vec<FormatDef> {
     vec![FormatDef {
         name: "adt",
             family: "adt",
-        entries: &["parse_adt", "ParsedAdt accessors"],
+        entries: &["parse_adt", "ParsedAdt accessors", "McalChunk::get_layer_alpha + AlphaMap::decompress", "BuiltAdt::from_root_adt + to_bytes", "parse_adt_with_metadata", "discover_chunks"],
         seeds: adt_seeds,
         drive: adt_drive,
         cipher: None,
